@@ -125,6 +125,19 @@ func init() {
 		return nil
 	})
 	libWritesHeap["sort.Strings"] = false
+	// proto.Bool / proto.String / proto.Int32 ...: a fresh cell holding the argument
+	for _, n := range []string{"Bool", "String", "Int32", "Int64", "Uint32", "Uint64", "Float32", "Float64"} {
+		full := "google.golang.org/protobuf/proto." + n
+		reg(full, func(ex *Exec, p *Path, _ *Value, a []Value, call *ast.CallExpr) []Value {
+			if ex.inContract() || ex.quantFacts != nil {
+				ex.unsupp(token.NoPos, "proto.%s in a specification expression", n)
+			}
+			r := ex.alloc(p, "cell")
+			ex.heapWrite(p, "deref:"+sortToken(ex.c.SortOf(a[0].Ty)), a[0].Ty, r, a[0].T)
+			return []Value{{r, types.NewPointer(a[0].Ty)}}
+		})
+		libWritesHeap[full] = false
+	}
 }
 
 func concatT(parts []string) string {
